@@ -100,10 +100,19 @@ func execEncode(in val.V) val.V {
 				fam = append(fam, m.Clone())
 			}
 		}
+		// a batch: every member marshalled first, the results looked at afterwards (what an earlier call returned must not
+		// change when a later one is made)
+		held := make([][]byte, len(fam))
+		for i, m := range fam {
+			held[i], _ = m.MarshalText()
+		}
 		var all bytes.Buffer
 		wires := []val.V{}
-		for _, m := range fam {
+		for i, m := range fam {
 			w := wireOf(m)
+			if w.Str() != "panic" && string(held[i]) != m.String() {
+				w = val.B(held[i])
+			}
 			wires = append(wires, w)
 			all.Write(w.Bytes())
 		}
